@@ -168,7 +168,8 @@ CLAIMED = {
         text="Lean 4 theorems: the state after a link is the left fold of 'update MATCHED_*, then run every non-disruptive "
              "action once' over exactly the link's matches, in order (so once per match, macros expanded at that moment); "
              "setvar assign/delete single-step lemmas; m executions of setvar:tx.k=+n turn the decimal text of cur into that of cur+m·n "
-             "(C09_sum, through the proved Itoa/Atoi round trip); HIGHEST_SEVERITY is lowered to the minimum by MatchRule only when the "
+             "(C09_sum, through the proved Itoa/Atoi round trip), and any mix of +n / -n executions through negative totals leaves cur plus the "
+             "signed sum as long as the running total stays in the int64 range (C09_signed_sum); HIGHEST_SEVERITY is lowered to the minimum by MatchRule only when the "
              "rule fired; the disruptive action runs once per completed chain. Tied to /repo by `eng` (profile acct).",
         note=_ENG_NOTE, ref="6/C09", engine="eng"),
     "C12": dict(
